@@ -118,6 +118,18 @@ type serverConn struct {
 
 	closer chan struct{}
 
+	// resetSent holds the ids of the streams this side has reset or refused
+	// recently. The peer may have had frames for them on the wire before it saw
+	// the RST_STREAM; those are dropped rather than treated as an error, except
+	// for what they do to the state the whole connection shares. Owned by the
+	// stream loop, and bounded by the closed-stream ring.
+	resetSent map[uint32]struct{}
+
+	// discardedBlock and discardedFields carry the decoding of a header block
+	// that is being dropped across its CONTINUATION frames.
+	discardedBlock  []byte
+	discardedFields int
+
 	// vs carries the verification hooks; empty without the verif build tag.
 	vs     verifServer
 	debug  bool
@@ -472,6 +484,7 @@ func (sc *serverConn) handleStreams() {
 			closedRing = append(closedRing, id)
 		} else {
 			delete(closedStrms, closedRing[closedOldest])
+			delete(sc.resetSent, closedRing[closedOldest])
 			closedRing[closedOldest] = id
 			closedOldest = (closedOldest + 1) % closedStrmsCap
 		}
@@ -735,6 +748,21 @@ loop:
 					continue
 				}
 
+				if _, ok := sc.resetSent[fr.Stream()]; ok {
+					// The peer sent this before it could have seen our
+					// RST_STREAM. An endpoint that resets a stream has to be
+					// prepared for that (RFC 7540 5.1, 5.4.2): the frame is
+					// dropped, but a header block still goes through the
+					// decoder and DATA still counts against the connection
+					// window, or every other stream pays for it.
+					if err := sc.discardFrame(fr); err != nil {
+						sc.writeError(nil, err)
+						break loop
+					}
+
+					continue
+				}
+
 				if _, ok := closedStrms[fr.Stream()]; ok {
 					// A WINDOW_UPDATE, RST_STREAM or PRIORITY frame may
 					// legitimately arrive shortly after a stream is closed,
@@ -925,6 +953,17 @@ func (sc *serverConn) consumeRecvWindow(strm *Stream, fr *FrameHeader, n int) {
 		sc.writeWindowUpdate(strm.ID(), n)
 	}
 
+	sc.consumeConnWindow(n)
+}
+
+// consumeConnWindow is the connection half of consumeRecvWindow. Every DATA
+// frame counts against the connection window, including the ones whose payload
+// is thrown away.
+func (sc *serverConn) consumeConnWindow(n int) {
+	if n <= 0 {
+		return
+	}
+
 	sc.currentWindow -= int32(n)
 	if sc.currentWindow < sc.maxWindow/2 {
 		inc := sc.maxWindow - sc.currentWindow
@@ -932,6 +971,52 @@ func (sc *serverConn) consumeRecvWindow(strm *Stream, fr *FrameHeader, n int) {
 
 		sc.writeWindowUpdate(0, int(inc))
 	}
+}
+
+// discardFrame drops a frame that arrived for a stream this side has reset or
+// refused, keeping in step the state the frame shares with the rest of the
+// connection: the HPACK dynamic table for header blocks, the connection
+// flow-control window for DATA.
+func (sc *serverConn) discardFrame(fr *FrameHeader) error {
+	switch fr.Type() {
+	case FrameHeaders, FrameContinuation:
+		b := append(sc.discardedBlock, fr.Body().(FrameWithHeaders).Headers()...)
+		sc.discardedBlock = b[:0]
+
+		hf := AcquireHeaderField()
+		defer ReleaseHeaderField(hf)
+
+		for len(b) > 0 {
+			pb := b
+
+			var err error
+
+			b, err = sc.dec.nextField(hf, sc.discardedFields == 0, sc.discardedFields, b)
+			if err != nil {
+				if errors.Is(err, ErrUnexpectedSize) && !fr.Flags().Has(FlagEndHeaders) {
+					// cut in the middle of a field: the rest is in the next frame
+					sc.discardedBlock = append(sc.discardedBlock, pb...)
+					break
+				}
+
+				return NewGoAwayError(CompressionError, err.Error())
+			}
+
+			sc.discardedFields++
+		}
+
+		if sc.maxHeaderList > 0 && len(sc.discardedBlock) > sc.maxHeaderList {
+			return NewGoAwayError(EnhanceYourCalm, "header list exceeds the maximum size")
+		}
+
+		if fr.Flags().Has(FlagEndHeaders) {
+			sc.discardedFields = 0
+		}
+	case FrameData:
+		sc.consumeConnWindow(fr.Len())
+	}
+
+	return nil
 }
 
 func (sc *serverConn) writeWindowUpdate(id uint32, inc int) {
@@ -947,6 +1032,12 @@ func (sc *serverConn) writeWindowUpdate(id uint32, inc int) {
 }
 
 func (sc *serverConn) writeReset(strm uint32, code ErrorCode) {
+	if sc.resetSent == nil {
+		sc.resetSent = make(map[uint32]struct{}, closedStrmsCap)
+	}
+
+	sc.resetSent[strm] = struct{}{}
+
 	r := AcquireFrame(FrameResetStream).(*RstStream)
 
 	fr := AcquireFrameHeader()
